@@ -248,7 +248,7 @@ def iface_records(case, direction="ab", versioned=False):
                 seen.add(i)
                 ck = "deleted" if i in removed else "added" if i in added else "changed" if i in changed else "same"
                 nm = "%s%d" % (pfx, i)
-                res.append({"name": nm, "kind": kind, "ck": ck, "sym": nm, "ver": ("V%d" % i) if versioned else ""})
+                res.append({"name": nm, "kind": kind, "ck": ck, "sym": nm, "ver": ("V%d" % i) if has_version(i, versioned) else ""})
     return res
 
 
@@ -292,12 +292,20 @@ def tchange(name, kind, file, base, via_ptr, old=None, new=None, size_old=0, siz
 
 
 # ------------------------------------------------------------------------------------------------ building and probing
-def version_script(case, sfx):
+def has_version(i, versioned):
+    """versioned: False (no version script), True (one version node per exported symbol) or "mixed" (only the interfaces with an odd
+    number get a version: versioned and unversioned symbols side by side, as in a library that started versioning late)"""
+    return bool(versioned) and (versioned != "mixed" or i % 2 == 1)
+
+
+def version_script(case, sfx, versioned=True):
     lines = []
     for f in case["fns" + sfx]:
-        lines.append("V%d { global: fn%d; };" % (f["id"], f["id"]))
+        if has_version(f["id"], versioned):
+            lines.append("V%d { global: fn%d; };" % (f["id"], f["id"]))
     for v in case["vars" + sfx]:
-        lines.append("V%d { global: var%d; };" % (v["id"], v["id"]))
+        if has_version(v["id"], versioned):
+            lines.append("V%d { global: var%d; };" % (v["id"], v["id"]))
     return "\n".join(lines) + "\n"
 
 
@@ -309,7 +317,7 @@ def build(c, idx, case, comp="gcc", which=1, sub="a", versioned=False, style=Non
     sfx = "" if which == 1 else "2"
     d = os.path.join(c.workdir, "p%d" % idx, sub)
     files = cprog.render(case["types" + sfx], case["fns" + sfx], case["vars" + sfx], case.get("lang", "c"), style)
-    files["vers.map.h"] = version_script(case, sfx)          # ".h": campaign.compile_prog does not pass it as a source
+    files["vers.map.h"] = version_script(case, sfx, versioned)          # ".h": campaign.compile_prog does not pass it as a source
     path, err = campaign.compile_prog(d, files, cc, tuple(flags) + ("-Wl,--version-script=vers.map.h",), "dso", "lib.so")
     return path, err, d
 
